@@ -1,4 +1,4 @@
-module spike
+module spike4
 
 go 1.23
 
